@@ -155,7 +155,6 @@ class Gen18:
         pre = inline_t + defs_t
         if glob:
             pre = ['  <var w="%d" h="%d" lab="%s" cls="%s"/>' % (glob["w"], glob["h"], glob["lab"], glob["cls"])] + pre
-            specs_first = True
         head_p = ([specs] if specs_first else []) + pre
         tail_p = [] if specs_first else [specs]
         # specs content must not be rendered: the twin simply has no <specs>
@@ -230,7 +229,7 @@ def check_case(ctx, case):
 def run_shard(ctx):
     acc = ctx.acc
     rng = ctx.rng("reuse")
-    n = 1500 if ctx.quick() else 60000
+    n = 10000 if ctx.quick() else 200000
     for j in range(n):
         if ctx.out_of_time():
             acc.notes.append("time budget reached after %d programs" % j)
